@@ -209,16 +209,10 @@ COMBOS = part(_ALLCOMBOS)
 NCOMBO = len(COMBOS)
 
 
-def inherit_ok(ci: int, ipv: int) -> bool:
-    """
-    pre: 0 <= ci < NCOMBO
-    pre: 0 <= ipv < len(VALS)
-    post: _
-    """
+def _inherit(ci: int, ipv: int) -> bool:
     # lang / xml:lang values (absent, en, fr, explicitly empty, EN-us) on html, body, div, p and the iframe's inner
     # <p>; <meta> pragma absent / fr / empty; HTML, XHTML, XML; every element asked through select() and match()
-    ci, ipv = concrete(ci), concrete(ipv)
-    with notrace():
+    if True:
         kind, vh, vb, vd, vp, meta_val = COMBOS[ci]
         soup, slots = build_doc(kind)
         vals = {'html': VALS[vh], 'body': VALS[vb], 'div': VALS[vd], 'p': VALS[vp], 'ip': VALS[ipv]}
@@ -251,6 +245,25 @@ def inherit_ok(ci: int, ipv: int) -> bool:
                     exp = ref_filter(SELS[CSEL.index(c)][1], lang)
                 if (id(el) in selected) != exp or bool(c.match(el)) != exp:
                     ok = False
+    return ok
+
+
+
+IBLOCK = 4
+
+
+def inherit_ok(bi: int) -> bool:
+    """
+    pre: 0 <= bi * IBLOCK < NCOMBO
+    post: _
+    """
+    # one block of 4 combinations x 5 values of the inner paragraph per path (bounded enumeration by symbolic block index)
+    bi = concrete(bi)
+    ok = True
+    with notrace():
+        for ci in range(bi * IBLOCK, min(NCOMBO, (bi + 1) * IBLOCK)):
+            for ipv in range(len(VALS)):
+                ok = ok and _inherit(ci, ipv)
     return ret(ok)
 
 
